@@ -133,5 +133,111 @@ def ifaceMin (n : Net K) (sid : String) : Except Err K :=
 def advertisedValues (k : Kind K) : List K :=
   (allowable k ++ [maxRate k]).filterMap id
 
+/-! ## save / resume (`to_json` → `from_json`) inside a history
+
+`ChargingNetwork._to_dict` (charging_network.py:547-582) writes `_EVSEs` as a JSON object
+`{station_id: registry id}` in dict order and the four cached containers VERBATIM (positional arrays);
+`_from_dict` (charging_network.py:585-648) rebuilds `_EVSEs` by iterating that object
+(`evses[station_id] = evse_elt`, a fresh dict) and restores the containers as they were written — it does
+NOT recompute them.  The Interface (`_infrastructure_info`, interface.py:452-479) then reads the station
+order from the REBUILT dict and the four containers from the RESTORED cache.  So the network the
+accessors see is a pair: the registered stations and a stored cache; every mutator of the network
+(`register_evse`, the constraint edits) refreshes the cache from `_EVSEs` (`_update_info_store`).  -/
+
+/-- a `ChargingNetwork` with its STORED info cache (`max_pilot_signals`, `min_pilot_signals`,
+    `allowable_rates`, `is_continuous`; `cache.ids` are the keys of `_station_ids_dict`) -/
+structure CNet (K : Type) where
+  net : Net K
+  cache : Info K
+
+/-- `ChargingNetwork.__init__` (charging_network.py:42-64) -/
+def CNet.init : CNet K := { net := Net.init, cache := infoStore Net.init }
+
+/-- `register_evse` (charging_network.py:177-202): the dict update followed by `_update_info_store()` -/
+def CNet.register (c : CNet K) (s : Station K) : CNet K :=
+  let n := c.net.register s
+  { net := n, cache := infoStore n }
+
+/-- what `to_json` writes of the network, as far as the description goes: the entries of the `_EVSEs`
+    object in the order written, `len(_voltages)`, the cached containers -/
+structure Saved (K : Type) where
+  evses : List (Station K)
+  nVolt : Nat
+  cache : Info K
+
+/-- charging_network.py:547-582 -/
+def CNet.save (c : CNet K) : Saved K :=
+  { evses := c.net.stations, nVolt := c.net.nVolt, cache := c.cache }
+
+/-- charging_network.py:585-648: `_EVSEs` rebuilt entry by entry into a fresh dict, the containers taken
+    verbatim from the file -/
+def Saved.load (s : Saved K) : CNet K :=
+  { net := { stations := s.evses.foldl (fun acc e => setStation e acc) [], nVolt := s.nVolt },
+    cache := s.cache }
+
+/-- `from_json(to_json())` -/
+def CNet.restore (c : CNet K) : CNet K := c.save.load
+
+/-- one entry of a history of a network before its first use -/
+inductive NetEv (K : Type) where
+  | reg (s : Station K)     -- `register_evse`
+  | restore                 -- save and resume; the history continues on the object that comes back
+
+def CNet.step (c : CNet K) : NetEv K → CNet K
+  | .reg s => c.register s
+  | .restore => c.restore
+
+/-- a network built by `register_evse` calls with save / resume steps anywhere between them -/
+def CNet.run (h : List (NetEv K)) : CNet K := h.foldl CNet.step CNet.init
+
+/-- the `register_evse` calls of a history -/
+def regsOf : List (NetEv K) → List (Station K)
+  | [] => []
+  | .reg s :: r => s :: regsOf r
+  | .restore :: r => regsOf r
+
+/-- `InfrastructureInfo._validate` (interface.py:236-278) on what `_infrastructure_info` passes: the
+    station count from `_EVSEs`, `len(voltages)`, and the lengths of the four stored containers -/
+def infraOkC (c : CNet K) : Bool :=
+  c.net.nVolt == c.net.stations.length && c.cache.maxs.length == c.net.stations.length &&
+  c.cache.mins.length == c.net.stations.length && c.cache.allow.length == c.net.stations.length &&
+  c.cache.cont.length == c.net.stations.length
+
+/-- `_infrastructure_info()` + `get_station_index`: the index comes from `network.station_ids`
+    (the keys of `_EVSEs`), not from the stored `_station_ids_dict` -/
+def lookupC (c : CNet K) (sid : String) : Except Err Nat :=
+  if infraOkC c then
+    match stationIndex (c.net.stations.map (·.id)) sid with
+    | some i => .ok i
+    | none => .error .keyError
+  else .error .valueError
+
+/-- interface.py:485-507 on the stored cache -/
+def ifaceAllowableC (c : CNet K) (sid : String) : Except Err (Bool × List (Bound K)) :=
+  match lookupC c sid with
+  | .error e => .error e
+  | .ok i =>
+    match c.cache.cont[i]?, c.cache.allow[i]? with
+    | some b, some a => .ok (b, a)
+    | _, _ => .error .indexError
+
+/-- interface.py:509-523 on the stored cache -/
+def ifaceMaxC (c : CNet K) (sid : String) : Except Err (Bound K) :=
+  match lookupC c sid with
+  | .error e => .error e
+  | .ok i =>
+    match c.cache.maxs[i]? with
+    | some m => .ok m
+    | none => .error .indexError
+
+/-- interface.py:525-539 on the stored cache -/
+def ifaceMinC (c : CNet K) (sid : String) : Except Err K :=
+  match lookupC c sid with
+  | .error e => .error e
+  | .ok i =>
+    match c.cache.mins[i]? with
+    | some m => .ok m
+    | none => .error .indexError
+
 end
 end Acn.EvseNet
